@@ -165,7 +165,7 @@ func genTwin(r *rand.Rand, focus string) *TwinParams {
 	inTxn := false
 	add := func(s TwinStep) { p.Steps = append(p.Steps, s) }
 	pred := func() (string, []TV) {
-		switch r.IntN(13) {
+		switch r.IntN(15) {
 		case 0:
 			return "k = ?", []TV{anykey()}
 		case 1:
@@ -204,6 +204,28 @@ func genTwin(r *rand.Rand, focus string) *TwinParams {
 				args = append(args, a)
 			}
 			return strings.Join(terms, " AND "), args
+		case 12:
+			// constraints on other columns next to the key constraints, before and after them: the table uses
+			// only the key ones, and the numbering of the arguments it asks for must not depend on where they stand
+			col := p.Cols[r.IntN(len(p.Cols))]
+			nk := []string{col + " = ?", col + " >= ?", col + " < ?", col + " IS NULL", col + " IN (?, ?)"}[r.IntN(5)]
+			var nargs []TV
+			for i := 0; i < strings.Count(nk, "?"); i++ {
+				nargs = append(nargs, val())
+			}
+			kp := []string{"k > ?", "k = ?", "k <= ?", "k BETWEEN ? AND ?", "k >= ? AND k < ?"}[r.IntN(5)]
+			var kargs []TV
+			for i := 0; i < strings.Count(kp, "?"); i++ {
+				kargs = append(kargs, anykey())
+			}
+			switch r.IntN(3) {
+			case 0:
+				return nk + " AND " + kp, append(nargs, kargs...)
+			case 1:
+				return kp + " AND " + nk, append(kargs, nargs...)
+			default:
+				return "k < ? AND " + nk + " AND " + kp, append(append([]TV{anykey()}, nargs...), kargs...)
+			}
 		}
 		return "1", nil
 	}
